@@ -43,13 +43,13 @@ CCall(c, e) ==
   ELSE IF e.outcome = "ok" /\ e.rt = "no" THEN Bad("roundtrip-failed")
   ELSE IF e.ref = "no" THEN Bad("reference-disagreement")
   ELSE IF e.outcome # "ok" /\ e.noout = "no" THEN Bad("output-on-error")
-  ELSE IF ~flip /\ c.calls >= 1 THEN Bad("harness: more than one call for a case without byte positions")
-  ELSE IF flip /\ (e.idx < c.last \/ e.idx >= c.compLen) THEN Bad("harness: byte position out of order or out of range")
+  ELSE IF ~flip /\ c.calls >= 1 THEN Bad("harness: more than one call")
+  ELSE IF flip /\ (e.idx < c.last \/ e.idx >= c.compLen) THEN Bad("harness: byte position out of order")
   ELSE [c EXCEPT !.calls = @ + 1, !.last = e.idx, !.distinct = IF e.idx > c.last THEN @ + 1 ELSE @]
 
 CEnd(c) ==
   IF c.calls = 0 THEN Bad("harness: case not executed")
-  ELSE IF c.cs.mut \in Flips /\ c.full /\ c.distinct # c.compLen THEN Bad("harness: not every byte position was mutated")
+  ELSE IF c.cs.mut \in Flips /\ c.full /\ c.distinct # c.compLen THEN Bad("harness: byte positions missing")
   ELSE c
 
 (* the lists the package publishes must be the documented ones *)
